@@ -233,10 +233,25 @@ class Run(object):
         if not (0 <= i < self.state.order):
             return "skip"
         g = np_gen(rec.get("seed", 0))
-        z = g.standard_normal((2, 2)) + 1j * g.standard_normal((2, 2))
-        q, r = np.linalg.qr(z)
-        u = q * (np.diag(r) / np.abs(np.diag(r)))
-        new = np.einsum("ab,rbcs->racs", u, np.asarray(self.state.cores[i]).astype(complex))
+        old = np.asarray(self.state.cores[i]).astype(complex)
+        if rec.get("how") == "replace":
+            # a different core altogether: a random right-isometry of the same shape (site 0: a random unit-norm core).
+            # The state stays normalised and right-orthonormal, but -- unlike a local unitary on a traced-out site --
+            # the marginals of the sites to its left change.
+            r0, m, n_, r1 = old.shape
+            z = g.standard_normal((m * n_ * r1, r0)) + 1j * g.standard_normal((m * n_ * r1, r0))
+            if i == 0:
+                new = (z / np.linalg.norm(z)).T.reshape(r0, m, n_, r1)
+            elif r0 <= m * n_ * r1:
+                q, _ = np.linalg.qr(z)
+                new = q.conj().T.reshape(r0, m, n_, r1)
+            else:
+                return "skip"
+        else:
+            z = g.standard_normal((2, 2)) + 1j * g.standard_normal((2, 2))
+            q, r = np.linalg.qr(z)
+            u = q * (np.diag(r) / np.abs(np.diag(r)))
+            new = np.einsum("ab,rbcs->racs", u, old)
         self.state.cores[i] = new
         self.cores[i] = new.copy()
         self.snap = M.Snapshot(self.state)
@@ -412,8 +427,8 @@ def generate_and_run(seed, keep_events=False):
                 rec["c"] = rnd.choice((0.0, 0.25, 0.5, 0.75, 1.0 - 2.0 ** -53, rnd.random()))
             records.append(rec)
             run.step(rec)
-            if rnd.random() < 0.25:
-                rec = {"op": "gate", "site": rnd.randrange(n), "seed": rnd.getrandbits(32)}
+            if rnd.random() < 0.3:
+                rec = {"op": "gate", "site": rnd.randrange(n), "seed": rnd.getrandbits(32), "how": rnd.choice(("unitary", "replace"))}
                 records.append(rec)
                 run.step(rec)
     except Violation as v:
